@@ -75,6 +75,10 @@ func (s Shape) String() string {
 
 var ErrInvalidType = errors.New("invalid type")
 
+// ErrInvalidRawDataLength is returned when the raw data of a tensor does not consist
+// of a whole number of elements.
+var ErrInvalidRawDataLength = errors.New("raw data length is not a multiple of the element size")
+
 // Dim is a dimension.
 type Dim struct {
 	IsDynamic bool
@@ -317,6 +321,10 @@ const (
 
 // ReadFloat32ArrayFromBytes reads data and parses it to an array of float32.
 func ReadFloat32ArrayFromBytes(data []byte) ([]float32, error) {
+	if len(data)%float32Size != 0 {
+		return nil, ErrInvalidRawDataLength
+	}
+
 	buffer := bytes.NewReader(data)
 	element := make([]byte, float32Size)
 
@@ -346,6 +354,10 @@ func ReadFloat32ArrayFromBytes(data []byte) ([]float32, error) {
 
 // ReadFloat64ArrayFromBytes reads data and parses it to an array of float64.
 func ReadFloat64ArrayFromBytes(data []byte) ([]float64, error) {
+	if len(data)%float64Size != 0 {
+		return nil, ErrInvalidRawDataLength
+	}
+
 	buffer := bytes.NewReader(data)
 	element := make([]byte, float64Size)
 
@@ -387,6 +399,10 @@ func ReadBoolArrayFromBytes(data []byte) []bool {
 
 // ReadUint8ArrayFromBytes reads data and parses it to an array of uint8.
 func ReadUint8ArrayFromBytes(data []byte) ([]uint8, error) {
+	if len(data)%uint8Size != 0 {
+		return nil, ErrInvalidRawDataLength
+	}
+
 	buffer := bytes.NewReader(data)
 	element := make([]byte, uint8Size)
 
@@ -415,6 +431,10 @@ func ReadUint8ArrayFromBytes(data []byte) ([]uint8, error) {
 
 // ReadInt8ArrayFromBytes reads data and parses it to an array of int8.
 func ReadInt8ArrayFromBytes(data []byte) ([]int8, error) {
+	if len(data)%int8Size != 0 {
+		return nil, ErrInvalidRawDataLength
+	}
+
 	buffer := bytes.NewReader(data)
 	element := make([]byte, int8Size)
 
@@ -443,6 +463,10 @@ func ReadInt8ArrayFromBytes(data []byte) ([]int8, error) {
 
 // ReadUint16ArrayFromBytes reads data and parses it to an array of uint16.
 func ReadUint16ArrayFromBytes(data []byte) ([]uint16, error) {
+	if len(data)%uint16Size != 0 {
+		return nil, ErrInvalidRawDataLength
+	}
+
 	buffer := bytes.NewReader(data)
 	element := make([]byte, uint16Size)
 
@@ -471,6 +495,10 @@ func ReadUint16ArrayFromBytes(data []byte) ([]uint16, error) {
 
 // ReadInt16ArrayFromBytes reads data and parses it to an array of int16.
 func ReadInt16ArrayFromBytes(data []byte) ([]int16, error) {
+	if len(data)%int16Size != 0 {
+		return nil, ErrInvalidRawDataLength
+	}
+
 	buffer := bytes.NewReader(data)
 	element := make([]byte, uint16Size)
 
@@ -499,6 +527,10 @@ func ReadInt16ArrayFromBytes(data []byte) ([]int16, error) {
 
 // ReadUint32ArrayFromBytes reads data and parses it to an array of uint32.
 func ReadUint32ArrayFromBytes(data []byte) ([]uint32, error) {
+	if len(data)%uint32Size != 0 {
+		return nil, ErrInvalidRawDataLength
+	}
+
 	buffer := bytes.NewReader(data)
 	element := make([]byte, int32Size)
 
@@ -527,6 +559,10 @@ func ReadUint32ArrayFromBytes(data []byte) ([]uint32, error) {
 
 // ReadInt32ArrayFromBytes reads data and parses it to an array of int32.
 func ReadInt32ArrayFromBytes(data []byte) ([]int32, error) {
+	if len(data)%int32Size != 0 {
+		return nil, ErrInvalidRawDataLength
+	}
+
 	buffer := bytes.NewReader(data)
 	element := make([]byte, int32Size)
 
@@ -555,6 +591,10 @@ func ReadInt32ArrayFromBytes(data []byte) ([]int32, error) {
 
 // ReadUint64ArrayFromBytes reads data and parses it to an array of uint64.
 func ReadUint64ArrayFromBytes(data []byte) ([]uint64, error) {
+	if len(data)%uint64Size != 0 {
+		return nil, ErrInvalidRawDataLength
+	}
+
 	buffer := bytes.NewReader(data)
 	element := make([]byte, uint64Size)
 
@@ -583,6 +623,10 @@ func ReadUint64ArrayFromBytes(data []byte) ([]uint64, error) {
 
 // ReadInt64ArrayFromBytes reads data and parses it to an array of float32.
 func ReadInt64ArrayFromBytes(data []byte) ([]int64, error) {
+	if len(data)%int64Size != 0 {
+		return nil, ErrInvalidRawDataLength
+	}
+
 	buffer := bytes.NewReader(data)
 	element := make([]byte, int64Size)
 
